@@ -165,10 +165,15 @@ def options_db():
         # control-symbol macros: no blank is swallowed by the macro token itself
         MacroSpec(';', [A(std('*', allow_pre_space=False))]),
         MacroSpec(':', [A(std('t!', allow_pre_space=False))]),
+        # pylatexenc-2 parser objects with a star that is not the first slot / follows a control
+        # symbol / belongs to an environment (a blank can stand before the star)
+        MacroSpec('olegst', args_parser=MacroStandardArgsParser('{*{')),
+        MacroSpec(',', args_parser=MacroStandardArgsParser('*[')),
         MacroSpec('olegacy', args_parser=MacroStandardArgsParser('*[{')),
         MacroSpec('olegns', args_parser=MacroStandardArgsParser('[{', optional_arg_no_space=True)),
     ], environments=[
         EnvironmentSpec('oenv', [A('s'), A('d()'), A('m')]),
+        EnvironmentSpec('olegenv', args_parser=MacroStandardArgsParser('*{')),
     ], specials=[])
     db.set_unknown_macro_spec(MacroSpec(''))
     db.set_unknown_environment_spec(EnvironmentSpec(''))
